@@ -28,6 +28,7 @@ FIXED = [
  ("C12", "could never clear a flag", "set_flags cleared opcode and rcode and never cleared a flag bit (inverted masks)"),
  ("C13", "odd number of hex digits", "DS digest with an odd number of hex digits: hex::decode(..).unwrap() panic in RR::from_string"),
  ("C13", "62-byte label was rejected", "host name ending in a 62-byte label followed by a blank was a parse error (length guard fired on the terminating blank)"),
+ ("C15", "c_hook.h declared the names", "c_hook.h declared rename_with_raw_names' name arguments as const uint8_t instead of const uint8_t *: a hook compiled against the shipped header cannot pass the names (compile error with -Werror)"),
  ("C13", "everything already in the output buffer", "name length check counted bytes already in the output vector: 252-byte MX host / two SOA names totalling > 253 bytes refused"),
 ]
 k = json.load(open('/verif/known_findings.json'))
